@@ -129,7 +129,7 @@ const PROTO_NAMES = ["toString", "valueOf", "constructor", "hasOwnProperty", "is
 // ---- rewrites that leave the type the same up to names, alias boundaries, property order and descriptions ----
 function sameRewrite(rng, env, holder, fresh) {
   const renameAll = (x, m) => { if (!Array.isArray(x)) return; if (head(x) === "ref" && m.has(x[1])) x[1] = m.get(x[1]); x.forEach((y) => renameAll(y, m)); };
-  switch (rng.below(6)) {
+  switch (rng.below(7)) {
     case 0: { // alpha: rename every name, permute the environment
       // (sometimes a type is called like a member of Object.prototype: a table of names must not find inherited members)
       const proto = PROTO_NAMES.filter((n) => !env.some((e) => e[0] === n));
@@ -163,6 +163,12 @@ function sameRewrite(rng, env, holder, fresh) {
       const c = allSlots(env, holder).filter((s) => head(s.node) !== "opt");
       const s = rng.pick(c); const name = (head(s.node) === "object" ? "Oex" : "Nex") + (fresh.n++);
       env.push([name, s.node]); s.set([A("ref"), name]); return "extract";
+    }
+    case 5: { // member order of unions, intersections and literal sets (the 32-bit hash only: D108)
+      let any = false;
+      const shuffle = (x) => { for (let i = x.length - 1; i > 1; i--) { const j = 1 + rng.below(i); const t = x[i]; x[i] = x[j]; x[j] = t; } };
+      for (const s of allSlots(env, holder)) if (["anyof", "allof", "consts"].includes(head(s.node)) && s.node.length > 2) { const before = JSON.stringify(s.node); shuffle(s.node); if (JSON.stringify(s.node) !== before) any = true; }
+      return any ? "member-order" : null;
     }
     default: { // inline a reference to a type that does not reach itself
       const c = allSlots(env, holder).filter((s) => head(s.node) === "ref" && lookupEnv(env, s.node[1]) && !reaches(env, s.node[1], s.node[1]));
@@ -240,6 +246,8 @@ export function gen(rng, params, mode) {
   for (let i = 0; i < k; i++) { const r = sameRewrite(rng, env2, holder, fresh); if (r) script.push(r); }
   syncDisc(env2); syncDisc(holder.rt);
   if (!contractive(env2)) return gen(rng, params, mode);
+  // hash256 writes the members of a union in their order (member order is not in its list): only the 32-bit hash is owed
+  if (script.includes("member-order")) { if (kind !== "same") return gen(rng, params, mode); kind = "same32"; }
   const vals = [];
   for (let i = 0; i < 4; i++) vals.push(member(rng, rt, env, 3));
   for (let i = 0; i < 4; i++) vals.push(member(rng, holder.rt, env2, 3));
@@ -248,6 +256,7 @@ export function gen(rng, params, mode) {
   return [A("h256"), A(kind), script.map(A), env, rt, env2, holder.rt, vals.map(encVal)];
 }
 
+let namedCounter = 0, probeCounter = 0;
 export function makeRunner(rt_, mode) {
   const cg = rt_.cg;
   registerFormats(cg);
@@ -265,14 +274,42 @@ export function makeRunner(rt_, mode) {
       return { d, bits, h32 };
     };
     const a = side(env1, rt1), b = side(env2, rt2);
+    // ONE parser object over a named root whose definition is replaced in between (createNamedType / overrideNamedType of
+    // the real module): the digest is a function of the validator as it is NOW, not of what it was when first asked
+    if (cg.createNamedType && cg.overrideNamedType && a.d != null && b.d != null) {
+      try {
+        const nm = "Root$" + (namedCounter++);
+        const P = cg.createNamedType(nm, cg.buildParserFromRuntype(buildEnv(env1, rt1).rt, "T", false));
+        const d1 = P.hash256(), h1 = P.hash();
+        cg.overrideNamedType(nm, cg.buildParserFromRuntype(buildEnv(env2, rt2).rt, "T", false));
+        const d2 = P.hash256(), h2 = P.hash();
+        let bits2 = "";
+        for (const v of valsSx) { try { bits2 += P.validate(decVal(v)) ? "1" : "0"; } catch (e) { bits2 += "T"; } }
+        if (d1 !== a.d || h1 !== a.h32) bad.add("c13.named-root");
+        if (d2 !== b.d || h2 !== b.h32) bad.add("c13.stale-digest");
+        if (bits2 !== b.bits) bad.add("c13.stale-validate");
+      } catch (e) { bad.add("c13.named-root-throws"); }
+    }
     for (const x of [a, b]) if (x.d != null && !/^[0-9a-f]{64}$/.test(x.d)) bad.add("c13.format");
     if (a.d != null && a.d === b.d && a.bits !== b.bits) bad.add("c13.collision");
     // the 32-bit hash: equal for types that differ only in property order, alias boundaries or comments
     const script = req[2].map((x) => x.s);
     if (kindA.s === "same" && script.every((k) => ["prop-order", "desc", "alias", "inline", "extract"].includes(k)) && a.h32 !== b.h32) bad.add("c13.same32");
+    if (kindA.s === "same32") {
+      if (a.h32 !== b.h32) bad.add("c13.same32");
+      if (a.bits !== b.bits) bad.add("c13.same-validate");
+    }
     if (kindA.s === "same") {
       if (a.d !== b.d) bad.add("c13.same");
       if (a.bits !== b.bits) bad.add("c13.same-validate");
+    }
+    // strings that are not well-formed UTF-16 (the value model has none): an unpaired surrogate is not U+FFFD (D109)
+    if ((probeCounter++) % 50 === 0) {
+      try {
+        const h = (v) => cg.buildParserFromRuntype(new cg.ConstRuntype(undefined, v), "T", false).hash256();
+        const ds = ["\ud800", "\udc00", "\ufffd", "a\ud800b", "a\ufffdb"].map(h);
+        if (new Set(ds).size !== ds.length) bad.add("c13.collision");
+      } catch (e) { bad.add("c13.hash-throws"); }
     }
     const dig = (x) => [A("d"), x.d == null ? A("throw") : x.d];
     const reply = [A("h256"), dig(a), dig(b), a.bits, b.bits];
